@@ -175,3 +175,26 @@ def add_rect(u, B):
         cv.append('res.%s.v@ == (if %s < %s { %s - %s } else { %s - %s })'
                   % (ax[i], c1, c2, hi('self', i), lo('other', i), lo('self', i), hi('other', i)))
     u.take(P, g2, 'collision_vector_with_' + B.rname, C(ensures=cv))
+    # in-place forms equal the returning forms
+    fl = list(ax) + list(ex)
+    def inplace(ens):
+        out = []
+        for e in ens:
+            e2 = e.replace('self.', 'old(self).').replace('res.', 'final(self).')
+            out.append(e2)
+        return out
+    u.take(P, g2, 'expand_to_contain_point', C(ret=None, ensures=inplace(ep)))
+    u.take(P, g2, 'expand_to_contain', C(ret=None, ensures=inplace(un)))
+    u.take(P, g2, 'intersect', C(ret=None, ensures=inplace(it)))
+    # split_at_*: the two halves, as rectangles, of the box split (low keeps the position, high starts at sp)
+    for k in range(n):
+        ens = []
+        for h in (0, 1):
+            for i in range(n):
+                if i == k:
+                    lo_ = lo('self', i) if h == 0 else 'sp.v@'
+                    hi_ = 'sp.v@' if h == 0 else hi('self', i)
+                else:
+                    lo_, hi_ = lo('self', i), hi('self', i)
+                ens += ['%s == %s' % (B.rpos('res@[%d]' % h, i), lo_), '%s == %s - %s' % (B.rext('res@[%d]' % h, i), hi_, lo_)]
+        u.take(P, g2, 'split_at_' + ax[k], C(requires=['sp.v@ >= %s' % lo('self', k), 'sp.v@ <= %s' % hi('self', k)], ensures=ens))
